@@ -156,6 +156,13 @@ Theorem C10_cycles_closed_form : forall tagged d n s h, in_range (kfree s) ->
 Proof. exact cycles_closed_form. Qed.
 Print Assumptions C10_cycles_closed_form.
 
+(** a deleted key has no destructor (commit 7f58d46: [key_delete] clears the cell): after
+    every history the destructor column is NULL outside the live keys *)
+Theorem C10_deleted_key_no_destructor : forall tagged os s h rs, seq_hist tagged kinit [] os = Some (s, h, rs) ->
+  forall k, ~ In k h -> kdtor s k = 0.
+Proof. exact seq_history_dead_no_dtor. Qed.
+Print Assumptions C10_deleted_key_no_destructor.
+
 Theorem C10_locked_sequential : forall tagged s h o,
   lseq_op tagged s h o =
   match seq_op tagged s h o with Some (s', h', r) => Some (false, s', h', r) | None => None end.
